@@ -612,6 +612,12 @@ def r75(e: Engine, rep: Report):
                         what=meth.replace('_command_', ''))
 
 
+def SESSION_INLINE(e):
+    # private helpers of SmtpSession are part of the callback that calls
+    # them; the validator and the hand-off stay events
+    return e.inline_same_self(deny=['_call_validator', 'handoff'])
+
+
 def r75_edge(e: Engine, rep: Report):
     """SmtpSession: the envelope under construction."""
     p = e.p
@@ -619,7 +625,7 @@ def r75_edge(e: Engine, rep: Report):
     # MAIL installs a fresh envelope only under 250
     for meth, what in (('MAIL', 'assign'), ('RCPT', 'append')):
         ctx = e.method_ctx(SESSION, meth)
-        g = e.build(ctx)
+        g = e.build(ctx, inline=SESSION_INLINE(e), max_depth=3)
         fx = e.facts(g)
         rep.functions.add(ctx.func.qname)
         rp = '%s#%d' % (ctx.func.params[1], g.entry.frame.id)
@@ -691,7 +697,7 @@ def r75_edge(e: Engine, rep: Report):
     # was installed (keeping an existing one keeps the recipients of a
     # message that the data validator rejected)
     ctx = e.method_ctx(SESSION, 'MAIL')
-    g = e.build(ctx)
+    g = e.build(ctx, inline=SESSION_INLINE(e), max_depth=3)
     rp = '%s#%d' % (ctx.func.params[1], g.entry.frame.id)
 
     def is_fresh(v, frame, gg):
